@@ -64,7 +64,7 @@ def run_one(sid: str, checks=None, tier="quick", procs=None, fast=False) -> dict
 
 def main() -> int:
     ap = argparse.ArgumentParser()
-    ap.add_argument("cmd", choices=["run", "run-all", "table"])
+    ap.add_argument("cmd", choices=["run", "run-all", "table", "design"])
     ap.add_argument("id", nargs="?")
     ap.add_argument("--checks", default=None)
     ap.add_argument("--tier", default="quick")
@@ -95,8 +95,17 @@ def main() -> int:
                 res[tier] = json.load(open(f)).get("detected_by", [])
         rows.append(f"| {s} | {meta['property']} | {meta.get('summary', '')[:90]} | {', '.join(res.get('quick', [])) or '—'} | "
                     f"{', '.join(res.get('thorough', [])) or '—'} |")
-    print("| seeded change | breaks | what it does | caught by (quick) | caught by (thorough) |\n|---|---|---|---|---|")
-    print("\n".join(rows))
+    table = ("| seeded change | breaks | what it does | caught by (quick) | caught by (thorough) |\n|---|---|---|---|---|\n"
+             + "\n".join(rows))
+    if a.cmd == "design":  # rewrite the table between the markers of DESIGN.md
+        path = os.path.join(HERE, "DESIGN.md")
+        txt = open(path).read()
+        b, e = "<!-- SEEDED-TABLE-BEGIN -->", "<!-- SEEDED-TABLE-END -->"
+        i, j = txt.index(b) + len(b), txt.index(e)
+        open(path, "w").write(txt[:i] + "\n" + table + "\n" + txt[j:])
+        print(f"DESIGN.md table rewritten: {len(rows)} rows")
+        return 0
+    print(table)
     return 0
 
 
